@@ -1,10 +1,13 @@
 -- GENERATED: axiom audit of the property theorems of C26
 import SquidModel.Properties.C26
-#print axioms SquidModel.C26.framing_length_sound_partial
-#print axioms SquidModel.C26.otherwise_bad_partial
+#print axioms SquidModel.C26.framing_length_sound
+#print axioms SquidModel.C26.otherwise_bad
 #print axioms SquidModel.C26.never_uses_other_value
 #print axioms SquidModel.C26.content_length_ignored
 #print axioms SquidModel.C26.unambiguous_accepted
-#print axioms SquidModel.C26.list_truncated_counterexample
-#print axioms SquidModel.C26.empty_list_counterexample
-#print axioms SquidModel.C26.list_truncated_counterexample_absent
+#print axioms SquidModel.C26.list_values_are_nonblank_members
+#print axioms SquidModel.C26.list_with_vt_member_conflict
+#print axioms SquidModel.C26.list_with_leading_vt_member
+#print axioms SquidModel.C26.empty_list_is_bad
+#print axioms SquidModel.C26.prefix_list_truncated_counterexample
+#print axioms SquidModel.C26.prefix_empty_list_counterexample
